@@ -2,5 +2,5 @@
    (trusted base: Extraction + ExtrOcamlBasic + ExtrOcamlNatInt: nat -> OCaml int, used for buffer ids and
    trace indices only; sizes and bytes stay Coq N). *)
 From Coq Require Import Extraction ExtrOcamlBasic ExtrOcamlNatInt.
-From BufOwnC Require Import BufOwner RespAlloc.
-Extraction "bomodel.ml" check_trace live_at_end run_exchange.
+From BufOwnC Require Import BufOwner RespAlloc WqAlloc BodyAlloc WsRecvAlloc.
+Extraction "bomodel.ml" check_trace live_at_end run_exchange qrun q0 brun body0 wrun w0.
